@@ -116,6 +116,16 @@ def edits_for(text, tokens, rng, per_kind):
         emit("final_newlines_added", ("eof",), b + b"\n\n")
     else:
         emit("final_newline_added", ("eof",), b + b"\n")
+    # the end of the file without a final newline: a whitespace-only last line of any width, or a comment, after the last statement
+    stripped = b.rstrip(b"\n")
+    if stripped and not L.in_string(len(stripped)):
+        for ws in (b" ", b"  ", b"    ", b"      ", b"        ", b"\t", b"            "):
+            emit("eof_ws_line_no_newline", ("eof", "w%d" % len(ws.expandtabs(4))), stripped + b"\n" + ws)
+        emit("eof_comment_no_newline", ("eof", "c0"), stripped + b"\n# end")
+        emit("eof_comment_no_newline", ("eof", "cdeep"), stripped + b"\n        # end")
+        emit("eof_ws_then_blank", ("eof",), stripped + b"\n  \n    \n")
+        if not L.multiline_str and b"\r" not in b:
+            emit("eof_crlf_ws_line", ("eof",), stripped.replace(b"\n", b"\r\n") + b"\r\n  ")
     # CRLF (whole file), only without multi-line strings
     if not L.multiline_str and b"\r" not in b:
         emit("crlf", ("file",), b.replace(b"\n", b"\r\n"))
